@@ -28,3 +28,108 @@ pub fn note_read_end(conn: usize, len: usize) {
         READS_DONE.fetch_add(1, Ordering::SeqCst);
     }
 }
+
+// ---- scheduling hook for the store's map calls -------------------------------
+
+use dashmap::mapref::entry::Entry;
+use dashmap::mapref::one::{Ref, RefMut};
+use dashmap::{DashMap, ReadOnlyView};
+use std::borrow::Borrow;
+use std::hash::Hash;
+use std::sync::{Arc, RwLock};
+
+pub type YieldFn = dyn Fn(&'static str) + Send + Sync;
+static YIELD: RwLock<Option<Arc<YieldFn>>> = RwLock::new(None);
+
+/// Install (or remove) the callback invoked before every map call of the store.
+pub fn set_yield(f: Option<Arc<YieldFn>>) {
+    *YIELD.write().unwrap() = f;
+}
+
+/// Called before each map call; the harness' scheduler may block here.
+pub fn yield_point(what: &'static str) {
+    let f = YIELD.read().unwrap().clone();
+    if let Some(f) = f {
+        f(what)
+    }
+}
+
+/// `DashMap` with a yield point in front of every call the store makes.
+/// The guards returned are DashMap's own, so locking behaviour is unchanged.
+pub struct TracedMap<K, V>(DashMap<K, V>);
+
+impl<K: Eq + Hash + Clone, V: Clone> Clone for TracedMap<K, V> {
+    fn clone(&self) -> Self {
+        TracedMap(self.0.clone())
+    }
+}
+
+impl<K: Eq + Hash, V> TracedMap<K, V> {
+    #[allow(clippy::new_without_default)]
+    pub fn new() -> Self {
+        TracedMap(DashMap::new())
+    }
+    pub fn get<Q>(&self, key: &Q) -> Option<Ref<'_, K, V>>
+    where
+        K: Borrow<Q>,
+        Q: Hash + Eq + ?Sized,
+    {
+        yield_point("get");
+        self.0.get(key)
+    }
+    pub fn get_mut<Q>(&self, key: &Q) -> Option<RefMut<'_, K, V>>
+    where
+        K: Borrow<Q>,
+        Q: Hash + Eq + ?Sized,
+    {
+        yield_point("get_mut");
+        self.0.get_mut(key)
+    }
+    pub fn insert(&self, key: K, value: V) -> Option<V> {
+        yield_point("insert");
+        self.0.insert(key, value)
+    }
+    pub fn remove<Q>(&self, key: &Q) -> Option<(K, V)>
+    where
+        K: Borrow<Q>,
+        Q: Hash + Eq + ?Sized,
+    {
+        yield_point("remove");
+        self.0.remove(key)
+    }
+    pub fn remove_if<Q>(&self, key: &Q, f: impl FnOnce(&K, &V) -> bool) -> Option<(K, V)>
+    where
+        K: Borrow<Q>,
+        Q: Hash + Eq + ?Sized,
+    {
+        yield_point("remove_if");
+        self.0.remove_if(key, f)
+    }
+    pub fn entry(&self, key: K) -> Entry<'_, K, V> {
+        yield_point("entry");
+        self.0.entry(key)
+    }
+    pub fn alter_all(&self, f: impl FnMut(&K, V) -> V) {
+        yield_point("alter_all");
+        self.0.alter_all(f)
+    }
+    pub fn clear(&self) {
+        yield_point("clear");
+        self.0.clear()
+    }
+    pub fn iter(&self) -> dashmap::iter::Iter<'_, K, V> {
+        yield_point("iter");
+        self.0.iter()
+    }
+    pub fn len(&self) -> usize {
+        yield_point("len");
+        self.0.len()
+    }
+    pub fn is_empty(&self) -> bool {
+        yield_point("is_empty");
+        self.0.is_empty()
+    }
+    pub fn into_read_only(self) -> ReadOnlyView<K, V> {
+        self.0.into_read_only()
+    }
+}
